@@ -80,6 +80,7 @@ let rec sx_gate = function
   | BSR (q, ax, a, p) -> S.List [atom "bsr"; sx_z q; sx_axis ax; sx_float a; sx_float p]
   | Ctrl (c, g) -> S.List [atom "ctrl"; sx_z c; sx_gate g]
   | Mat (m, ops) -> S.List [atom "mat"; sx_list (sx_list sx_cplx) m; sx_list sx_z ops]
+let sx_mat m = sx_list (sx_list sx_cplx) m
 let sx_arg = function
   | AQ i -> S.List [atom "q"; sx_z i]
   | AB i -> S.List [atom "b"; sx_z i]
@@ -99,6 +100,27 @@ let sx_result f = function
   | Ok a -> S.List [atom "ok"; f a]
   | Err e -> S.List [atom "err"; sx_err e]
 
+let sx_gg (g, gi) = S.List [sx_gate g; sx_ginfo gi]
+let sx_ditem = function
+  | DSame -> atom "same"
+  | DNew (k, g, gi) -> S.List [atom "new"; sx_int (int_of_nat k); sx_gate g; sx_ginfo gi]
+let axis_id_of_sexp = function
+  | S.Atom "x" -> AxX | S.Atom "y" -> AxY | S.Atom "z" -> AxZ | _ -> bad "axis id"
+let decomposer_of_sexp = function
+  | S.Atom "mckay" -> DecMcKay
+  | S.Atom "cnot" -> DecCNOT
+  | S.Atom s when String.length s = 3 ->
+      let ax c = (match c with 'x' -> AxX | 'y' -> AxY | 'z' -> AxZ | _ -> bad "decomposer") in
+      DecABA (ax s.[0], ax s.[1])
+  | _ -> bad "decomposer"
+let rule_of_sexp = function
+  | S.Atom "cnot_to_hczh" -> RuleCnotToHCzH
+  | S.Atom "cz_to_hcnoth" -> RuleCzToHCnotH
+  | S.Atom "shared" -> RuleShared
+  | S.Atom "wrong" -> RuleWrong
+  | S.Atom "identity_empty" -> RuleIdentityEmpty
+  | _ -> bad "rule"
+
 (* ---------- operations ---------- *)
 let d = dict
 
@@ -110,6 +132,37 @@ let run (op : string) (args : S.t list) : S.t =
   | "reduced_ket", [ket; qs] -> sx_n (reduced_ket (n_of_sexp ket) (list_of_sexp n_of_sexp qs))
   | "expand_ket", [base; red; qs] ->
       sx_n (expand_ket (n_of_sexp base) (n_of_sexp red) (list_of_sexp n_of_sexp qs))
+  | "normalize_angle", [x] -> sx_float (normalize_angle d (float_of_sexp x))
+  | "mk_bsr", [q; ax; a; p] -> sx_gate (mk_bsr d (z_of_sexp q) (axis_of_sexp ax) (float_of_sexp a) (float_of_sexp p))
+  | "mk_ctrl", [c; g] -> sx_result sx_gate (mk_ctrl (z_of_sexp c) (gate_of_sexp g))
+  | "mk_mat", [m; ops] ->
+      sx_result sx_gate (mk_mat (list_of_sexp (list_of_sexp cplx_of_sexp) m) (list_of_sexp z_of_sexp ops))
+  | "is_identity", [g] -> sx_bool (is_identity d (gate_of_sexp g))
+  | "get_matrix", [n; g] -> sx_result sx_mat (get_matrix d (z_of_sexp n) (gate_of_sexp g))
+  | "circuit_matrix", [n; ss] -> sx_result sx_mat (circuit_matrix d (z_of_sexp n) (stmts_of_sexp ss))
+  | "check_replacement", [g; repl] ->
+      sx_result (fun () -> atom "accepted") (check_replacement d (gate_of_sexp g) (list_of_sexp gate_of_sexp repl))
+  | "compare_gates", [g1; g2] -> sx_result sx_bool (compare_gates d (gate_of_sexp g1) (gate_of_sexp g2))
+  | "compare_gates_ord", [o; g1; g2] ->
+      sx_result sx_bool (compare_gates_ord d (list_of_sexp z_of_sexp o) (gate_of_sexp g1) (gate_of_sexp g2))
+  | "gate_eq", [g1; g2] -> sx_result sx_bool (gate_eq d (gate_of_sexp g1) (gate_of_sexp g2))
+  | "default_gate", [name; args] ->
+      sx_result sx_gg (default_gate d (str_of_sexp name) (list_of_sexp arg_of_sexp args))
+  | "aba_angles", [ia; ib; alpha; ax] ->
+      sx_result (fun ((t1, t2), t3) -> S.List [sx_float t1; sx_float t2; sx_float t3])
+        (aba_angles d (axis_id_of_sexp ia) (axis_id_of_sexp ib) (float_of_sexp alpha) (axis_of_sexp ax))
+  | "decompose_gate", [dec; g; gi] ->
+      sx_result (sx_list sx_ditem) (run_decomposer d (decomposer_of_sexp dec) (gate_of_sexp g) (ginfo_of_sexp gi))
+  | "compose", [a; ga; b; gb] ->
+      sx_result sx_gg (compose_gates d (gate_of_sexp a, ginfo_of_sexp ga) (gate_of_sexp b, ginfo_of_sexp gb))
+  | "try_name", [a; ga] -> sx_gg (try_name d (gate_of_sexp a, ginfo_of_sexp ga))
+  | "decompose", [dec; ss] ->
+      let (e, out) = decompose d (decomposer_of_sexp dec) (stmts_of_sexp ss) in
+      S.List [sx_opt sx_err e; sx_stmts out]
+  | "replace", [target; rule; ss] ->
+      let (e, out) = replace d (str_of_sexp target) (rule_of_sexp rule) (stmts_of_sexp ss) in
+      S.List [sx_opt sx_err e; sx_stmts out]
+  | "merge", [n; ss] -> sx_result sx_stmts (merge d (z_of_sexp n) (stmts_of_sexp ss))
   | _ -> bad ("unknown op " ^ op)
 
 let () =
